@@ -40,7 +40,7 @@ func init() {
 		Level:       "Static rules deciding named necessary conditions (no un-clamped look-ahead into the decompressed block, every access behind num < numDocs, the visitor's result alone controls the loop, writers and reader use the same block size). Partial: grouping/order of values and the re-encode arithmetic are value properties and not decided.",
 		Explanation: "LOOKAHEAD-CLAMP enumerates every []byte slice expression whose upper bound is offset+constant and requires the bound to be clamped by a comparison with len/cap of the same buffer (siblings copyStoredDocs and getDocStoredOffsets are both covered); VISIT-GUARD proves by dominance that every read and every visitor call in visitDocument is behind num < footer.numDocs and that the loop variable is defined only by the visitor's result; BLOCK-SELECT folds the constant passed to newChunkedDocumentCoder by both writers and the reader's divisor and requires them equal. ITER-SCRATCH shows that on every path through one document iteration the meta buffer is Reset and the data slice restarted before the record is added; SCRATCH-OWNED covers the decompression buffers.",
 		NotCovered:  "grouping and order of delivered values, correctness of the merge re-encode and of the byte-copy path arithmetic",
-		Uses:        []RuleUse{{"APPEND-RESULT-USED", ""}, {"TRAILER-ROLES", ""}, {"ITER-SCRATCH", ""}, {"SCRATCH-OWNED", ""}, {"LOOKAHEAD-CLAMP", ""}, {"VISIT-GUARD", ""}, {"BLOCK-SELECT", ""}, {"STORED-OFFSET-SOURCE", ""}, {"BLOCK-CURSOR", ""}, {"LOOP-BOUND-AGREE", ""}, {"RESET-COMPLETE", ""}, {"ESCAPE-FRESH", ""}},
+		Uses:        []RuleUse{{"STALE-LEN", ""}, {"APPEND-RESULT-USED", ""}, {"TRAILER-ROLES", ""}, {"ITER-SCRATCH", ""}, {"SCRATCH-OWNED", ""}, {"LOOKAHEAD-CLAMP", ""}, {"VISIT-GUARD", ""}, {"BLOCK-SELECT", ""}, {"STORED-OFFSET-SOURCE", ""}, {"BLOCK-CURSOR", ""}, {"LOOP-BOUND-AGREE", ""}, {"RESET-COMPLETE", ""}, {"ESCAPE-FRESH", ""}},
 	})
 	prop(&Property{
 		ID:          "C08",
@@ -169,7 +169,7 @@ func init() {
 		Level:       "Static rules deciding named NECESSARY conditions of the behaviour, not the behaviour: writer and reader derive the chunk size from the same three quantities and index chunks the same way; the location byte-count prefix counts exactly the quantities that are encoded; _id first / sorted field order; sibling literals agree; the reused encoders are fully reset. The equality of postings, frequencies, norms and locations for every batch is a value property and is NOT decided.",
 		Explanation: "CHUNK-AGREE checks the getChunkSize call of the builder (s.chunkMode, GetCardinality of the very bitmap writePostings serialises, len(s.results) — and that newWithChunkMode records the same mode and length in the footer) against the reader's (footer.chunkMode, GetCardinality of the bitmap just deserialised, footer.numDocs), that both encoders are re-sized with the result, and that both sides compute the chunk index as docNum / chunkSize (CHUNK-INDEX for the encoders). LENPREFIX-AGREE compares, as a multiset of normalised expression trees, the four arguments of totalUvarintBytes with the four values encoded per location and pins numUvarintBytes' shape. FIELD-ORDER, SIBLING-LITERAL, RESET-COMPLETE (the shared encoders) and ONEHIT-AWARE complete the set.",
 		NotCovered:  "the two-pass accumulation arithmetic, completeness of terms/postings, norms, terms with more than 1024 documents (values)",
-		Uses:        []RuleUse{{"APPEND-RESULT-USED", ""}, {"CHUNK-AGREE", ""}, {"CHUNK-INDEX", ""}, {"LENPREFIX-AGREE", ""}, {"FIELD-ORDER", ""}, {"SIBLING-LITERAL", ""}, {"RESET-COMPLETE", ""}, {"ESCAPE-FRESH", ""}},
+		Uses:        []RuleUse{{"STALE-LEN", ""}, {"APPEND-RESULT-USED", ""}, {"CHUNK-AGREE", ""}, {"CHUNK-INDEX", ""}, {"LENPREFIX-AGREE", ""}, {"FIELD-ORDER", ""}, {"SIBLING-LITERAL", ""}, {"RESET-COMPLETE", ""}, {"ESCAPE-FRESH", ""}},
 	})
 	prop(&Property{
 		ID:          "C02",
@@ -178,7 +178,7 @@ func init() {
 		Level:       "Static rules deciding named NECESSARY conditions: every document number written is the remapped one, location field ids use the merged map, doc values are re-added under new numbers and dropped ones skipped, the parallel per-iterator slices come from one filtered result, the byte-copy path is taken only for identical field lists without deletions, 1-hit encoding only under its full conjunction, chunk size from the footer quantities, terms inserted only with postings. Observational equality with a rebuild is a value property and is NOT decided.",
 		Explanation: "REMAP (mergeTermFreqNormLocs, buildMergedDocVals visitor, persistMergedRestField), CHUNK-AGREE (prepareNewTerm traced through its unique call chain to the values stored in the merged footer), LENPREFIX-AGREE, FASTPATH-GUARD (+ mergeFields compares every field of every segment), INSERT-GUARD, ONEHIT-GUARD, FIELD-ORDER (mergeFields), STORED-OFFSET-SOURCE, FIELDID-LANE, DV-SECTION-COMPLETE.",
 		NotCovered:  "k-way enumeration order, the re-encoding arithmetic, correctness of the stored-field byte copy (values)",
-		Uses:        []RuleUse{{"APPEND-RESULT-USED", ""}, {"RANGE-INDEX-BASE", ""}, {"ITER-SCRATCH", ""}, {"REMAP", ""}, {"CHUNK-AGREE", ""}, {"LENPREFIX-AGREE", ""}, {"FASTPATH-GUARD", ""}, {"INSERT-GUARD", ""}, {"ONEHIT-GUARD", ""}, {"FIELD-ORDER", ""}, {"STORED-OFFSET-SOURCE", ""}, {"BLOCK-CURSOR", ""}, {"FIELDID-LANE", ""}, {"DV-SECTION-COMPLETE", ""}, {"PER-FIELD-COMPLETE", ""}, {"LOOP-BOUND-AGREE", ""}, {"PARALLEL-APPEND", ""}, {"REMAP-TABLE-READONLY", ""}, {"TERM-BOUNDARY", ""}, {"ENUM-SKIP-GUARD", ""}, {"RESET-COMPLETE", ""}},
+		Uses:        []RuleUse{{"STALE-LEN", ""}, {"APPEND-RESULT-USED", ""}, {"RANGE-INDEX-BASE", ""}, {"ITER-SCRATCH", ""}, {"REMAP", ""}, {"CHUNK-AGREE", ""}, {"LENPREFIX-AGREE", ""}, {"FASTPATH-GUARD", ""}, {"INSERT-GUARD", ""}, {"ONEHIT-GUARD", ""}, {"FIELD-ORDER", ""}, {"STORED-OFFSET-SOURCE", ""}, {"BLOCK-CURSOR", ""}, {"FIELDID-LANE", ""}, {"DV-SECTION-COMPLETE", ""}, {"PER-FIELD-COMPLETE", ""}, {"LOOP-BOUND-AGREE", ""}, {"PARALLEL-APPEND", ""}, {"REMAP-TABLE-READONLY", ""}, {"TERM-BOUNDARY", ""}, {"ENUM-SKIP-GUARD", ""}, {"RESET-COMPLETE", ""}},
 	})
 	prop(&Property{
 		ID:          "C07",
